@@ -2,6 +2,7 @@ package govc
 
 import (
 	"fmt"
+	"go/constant"
 	"go/token"
 	"go/types"
 	"sort"
@@ -616,6 +617,25 @@ func (g *vcgen) special(v ssa.Value, fn *ssa.Function, args []string, c *ssa.Cal
 	case "(*sync.Cond).Signal":
 		// wakes at most one waiter: does not satisfy the wake-up obligation
 		return nil, true
+	}
+	switch name {
+	case "regexp.MatchString":
+		// constant pattern: exact RE2 semantics through the SMT theory of regular languages
+		if pc, ok := c.Args[0].(*ssa.Const); ok && pc.Value != nil {
+			re, err := regexToSMT(constant.StringVal(pc.Value), false)
+			if err != nil {
+				g.unsupported("regexp pattern %q: %v", constant.StringVal(pc.Value), err)
+				return g.freshResults(fn.Signature), true
+			}
+			g.noteAssumption("regexp.MatchString with the constant pattern " + pc.Value.ExactString() + " is modelled by structural translation of its regexp/syntax AST to an SMT regular language (unanchored match); strings are byte sequences")
+			return []string{fmt.Sprintf("(str.in_re %s %s)", args[1], re), "iface-nil"}, true
+		}
+	case "strings.HasPrefix":
+		return []string{fmt.Sprintf("(str.prefixof %s %s)", args[1], args[0])}, true
+	case "strings.HasSuffix":
+		return []string{fmt.Sprintf("(str.suffixof %s %s)", args[1], args[0])}, true
+	case "strings.Contains":
+		return []string{fmt.Sprintf("(str.contains %s %s)", args[0], args[1])}, true
 	}
 	if pkg == "github.com/sirupsen/logrus" {
 		n := fn.Name()
